@@ -434,11 +434,62 @@ func (mp *mergeProcessor) processBlock(
 			return err
 		}
 
+		if dagBlock.Delta.IsCollection() && childBlock.Delta.IsComposite() {
+			// A document commit that is linked from a collection commit also arrives on its own.
+			// It is merged against the heads of its document, so that it is applied once only,
+			// whichever of the two arrives first.
+			if err := mp.mergeLinkedDocumentCommit(ctx, childBlock, link.Link); err != nil {
+				return err
+			}
+			continue
+		}
+
 		if err := mp.processBlock(ctx, childBlock, link.Link); err != nil {
 			return err
 		}
 	}
 
+	return nil
+}
+
+// mergeLinkedDocumentCommit merges the given document commit, and any of its ancestors that have
+// not been merged yet, unless it already is part of the document's history.
+func (mp *mergeProcessor) mergeLinkedDocumentCommit(
+	ctx context.Context,
+	block *coreblock.Block,
+	blockLink cidlink.Link,
+) error {
+	mt, err := getHeadsAsMergeTarget(ctx, keys.HeadstoreDocKey{
+		DocID:   string(block.Delta.GetDocID()),
+		FieldID: core.COMPOSITE_NAMESPACE,
+	})
+	if err != nil {
+		return err
+	}
+
+	docProcessor := *mp
+	docProcessor.composites = list.New()
+	err = docProcessor.loadComposites(ctx, blockLink.Cid, mt)
+	if err != nil {
+		return err
+	}
+
+	merged := make(map[cid.Cid]struct{}, docProcessor.composites.Len())
+	for e := docProcessor.composites.Front(); e != nil; e = e.Next() {
+		composite := e.Value.(*coreblock.Block)
+		link, err := composite.GenerateLink()
+		if err != nil {
+			return err
+		}
+		if _, ok := merged[link.Cid]; ok {
+			continue
+		}
+		merged[link.Cid] = struct{}{}
+		err = docProcessor.processBlock(ctx, composite, link)
+		if err != nil {
+			return err
+		}
+	}
 	return nil
 }
 
